@@ -321,13 +321,13 @@ Proof.
     + unfold start_hunt. destruct (hunt_has _ _); simpl; auto. apply Forall_app. split; auto.
       constructor; [|constructor]. split; [exact He|exact I].
     + unfold lookup. destruct (nth_error (loops s) i) as [lp|] eqn:Hi; auto.
-      destruct (lpc lp); auto; simpl; apply (Forall_set_pc _ _ _ lp Hl Hi); simpl;
+      destruct (lpc lp); auto; simpl; apply (Forall_set_pc _ _ _ lp Hl Hi); (destruct (closed s); [exact I|]); simpl;
         (destruct (hunt_find (amac (laddr lp)) (hunt s)) as [t|] eqn:Hf; [|exact I]);
         apply hunt_find_some in Hf as [Hin _]; pose proof (rng_hunt _ Hs) as Hh; rewrite Forall_forall in Hh; apply Hh; exact Hin.
     + unfold check. destruct (nth_error (loops s) i) as [lp|] eqn:Hi; auto.
       destruct (lpc lp) as [|found|f cont| |] eqn:Hp; auto. simpl. apply (Forall_set_pc _ _ _ lp Hl Hi).
       pose proof (Forall_nth_error _ _ _ _ Hl Hi) as [Ha Hpc]. rewrite Hp in Hpc.
-      destruct found as [t|]; destruct (closed s); simpl; auto.
+      destruct found as [t|]; simpl; auto.
       * apply rng_announce. apply Hpc.
       * apply rng_restore. apply Ha.
     + unfold send. destruct (nth_error (loops s) i) as [lp|] eqn:Hi; auto.
